@@ -1,11 +1,11 @@
 package main
 
 import (
-	"strconv"
 	"fmt"
 	"go/token"
 	"go/types"
 	"sort"
+	"strconv"
 	"strings"
 
 	"golang.org/x/tools/go/ssa"
@@ -944,7 +944,6 @@ func sumsLens(fn *ssa.Function) bool {
 	return ok
 }
 
-
 // tableElem: v (on path p) is read from a constant position of a package-level
 // variable that is never written outside its initialiser — an element of a
 // slice or array (`table[1]`), a field of a struct (`family.cpu`), through
@@ -1068,8 +1067,6 @@ func sliceConsts(c *Ctx, p CPath, ctx *FCtx, v ssa.Value) ([]int64, bool) {
 	}
 	return out, true
 }
-
-
 
 // checkChunkLoopPaths decides the retrieval loop over the feasible paths of the
 // retriever's flattened view, the loop taken up to three times. What a request
